@@ -300,6 +300,10 @@ class SendSubscribe(_Sender):
         for v in (None, {}, {"a": 1}, {"a": L.BM.UNSET, "b": None}, {"m": m, "l": [m, 1]}, {"u": L.BM.UNSET}):
             for on in (None, "Op"):
                 out.append(dict(operation_id="id-1", query="subscription Op { x }", operation_name=on, variables=v))
+        # the query text travels as it is: line breaks, runs of blanks inside string and block-string literals, comments
+        text = 'subscription Op($n: String = "two  blanks") {\n  x(s: "a   b", b: """\n    block   text\n  """)  # comment\n  y\n}\n'
+        out.append(dict(operation_id="id-2", query=text, operation_name="Op", variables={"a": 1}))
+        out.append(dict(operation_id="id-3", query=text, operation_name=None, variables=None))
         return out
 
 
